@@ -2,7 +2,7 @@
 # ./check.sh <PROPERTY> <quick|thorough>  – rebuilds the harness against /repo's current working
 # tree (hooks on: -tags verif) and runs the property's check. Exit 0 held / 1 violation / 3 inconclusive.
 set -u
-ID="${1:?property id}"; TIER="${2:-${VERIF_TIER:-quick}}"
+ID="${1:?property id | replay}"; TIER="${2:-${VERIF_TIER:-quick}}"
 cd "$(dirname "$0")/harness" || exit 2
 export GOFLAGS=-mod=mod GOPROXY=off GOSUMDB=off GOTOOLCHAIN=local CGO_ENABLED=1
 export VERIF_DIR="$(cd .. && pwd)"
@@ -10,6 +10,11 @@ BIN="$VERIF_DIR/.work/bin"; mkdir -p "$BIN"
 MODFLAG=""
 if [ -n "${VERIF_MODFILE:-}" ]; then MODFLAG="-modfile=$VERIF_MODFILE"; BIN="$BIN-$(basename "$VERIF_MODFILE" .mod)"; mkdir -p "$BIN"; fi
 go build $MODFLAG -tags verif -o "$BIN/vcheck" ./cmd/vcheck || { echo "BUILD FAILED"; exit 2; }
+if [ "$ID" = "replay" ]; then
+  # ./check.sh replay <replay-file>: rebuild (both binaries) and re-run the recorded case 20 times
+  go build $MODFLAG -race -tags verif -o "$BIN/vcheck-race" ./cmd/vcheck || { echo "RACE BUILD FAILED"; exit 2; }
+  exec "$BIN/vcheck" replay "$(cd "$VERIF_DIR" && realpath "$2")"
+fi
 case "$ID" in
   C14|C20) go build $MODFLAG -race -tags verif -o "$BIN/vcheck-race" ./cmd/vcheck || { echo "RACE BUILD FAILED"; exit 2; } ;;
 esac
